@@ -347,6 +347,9 @@ func init() {
 			if !ok2 {
 				it.unsup("HasPrefix symbolic prefix")
 			}
+			if r, ok := it.hasPrefixStruct(s.norm().A, cp); ok {
+				return r
+			}
 			st := it.strTerm(s)
 			if !it.sol.decl["hasprefix"] {
 				it.sol.decl["hasprefix"] = true
@@ -582,4 +585,60 @@ func (it *Interp) ufStr(name string, s *StrV, f func(string) string) Value {
 	t := "(uf_" + name + " " + it.strTerm(s) + ")"
 	it.ufStrUsed[name] = f
 	return &StrV{A: []Atom{{Sym: t}}}
+}
+
+// hasPrefixStruct decides HasPrefix(s, p) structurally where the shape of s allows it exactly:
+// literal atoms are compared byte for byte; a symbolic atom known to be free of a character c, followed by a
+// literal that starts with c, can match a prefix containing c only by being equal to the part of p before c.
+func (it *Interp) hasPrefixStruct(atoms []Atom, p string) (Value, bool) {
+	if p == "" {
+		return true, true
+	}
+	if len(atoms) == 0 {
+		return false, true
+	}
+	a := atoms[0]
+	if a.Line != nil {
+		return nil, false
+	}
+	if a.Sym == "" {
+		if len(a.Lit) >= len(p) {
+			return strings.HasPrefix(a.Lit, p), true
+		}
+		if !strings.HasPrefix(p, a.Lit) {
+			return false, true
+		}
+		return it.hasPrefixStruct(atoms[1:], p[len(a.Lit):])
+	}
+	if len(atoms) > 1 && atoms[1].Sym == "" && atoms[1].Line == nil && atoms[1].Lit != "" && a.NoSep != "" && a.NoSep != "*digits" {
+		c := atoms[1].Lit[:1]
+		if strings.Contains(a.NoSep, c) {
+			j := strings.Index(p, c)
+			if j >= 0 {
+				rest, ok := it.hasPrefixStruct(atoms[1:], p[j:])
+				if !ok {
+					return nil, false
+				}
+				eq := it.strEq(&StrV{A: []Atom{a}}, conc(p[:j]))
+				return it.and(eq, rest), true
+			}
+		}
+	}
+	return nil, false
+}
+
+func (it *Interp) and(a, b Value) Value {
+	if ca, ok := a.(bool); ok {
+		if !ca {
+			return false
+		}
+		return b
+	}
+	if cb, ok := b.(bool); ok {
+		if !cb {
+			return false
+		}
+		return a
+	}
+	return &Sym{T: "(and " + a.(*Sym).T + " " + b.(*Sym).T + ")", S: "Bool"}
 }
